@@ -10,6 +10,9 @@ ENGINES = [
     {"name": "lists", "path": "spec/DListOps.tla spec/DList.tla spec/TraceDList.tla spec/SListOps.tla spec/SList.tla spec/TraceSList.tla harness/drv_dlist.c harness/drv_slist.c vlib/p_list.py",
      "serves_properties": ["C12", "C13", "C15"],
      "kind_free_text": "pointer-level TLA+ models of dlist.c / slist.c (sentinel, next/prev, tail pointer, count; up to three lists over one node pool) model-checked against the sequence contract; real-code closure and random histories validated by TLC"},
+    {"name": "heap", "path": "spec/HeapOps.tla spec/Heap.tla spec/TraceHeap.tla harness/drv_heap.c vlib/p_heap.py",
+     "serves_properties": ["C07", "C15"],
+     "kind_free_text": "link-level TLA+ model of heap.c (slot navigation by the bits of the size, six-neighbour parent/child swap, sift up/down) model-checked against the max-element / completeness contract; real-code closure and random histories validated by TLC"},
 ]
 TB = ("Trusted: TLC, the TLA+ text of the contract operators, the driver's serialiser/id mapping, gcc/glibc. "
       "The concrete model is not trusted: L1 tests it against the code, L0 against the contract. Closure only in the small scope stated in the evidence; beyond it seeded random histories.")
@@ -37,6 +40,9 @@ CHECKS = {
                 note=TB),
     "C13": dict(engine="lists", design_ref="§6 C13", technique="TLA+ model checking (TLC) + trace validation of real-code closure against the spec",
                 text="Pointer-level model of slist.c (insert_after/erase_after, push/pop, reverse loop, concat, swap fix-up, clear, foreach, merge sort) with the tail invariant (t is the true last node or the head link, its next is NULL) evaluated on the real fields after every operation of the closure (every position of erase/insert relative to the tail, lengths 0..6, one to three lists), pop_front on empty included; random histories beyond.",
+                note=TB),
+    "C07": dict(engine="heap", design_ref="§6 C07", technique="TLA+ model checking (TLC) + trace validation of real-code closure against the spec",
+                text="Every heap shape reachable by push/pop/clear over pools of 6-9 elements with duplicate priorities is visited by TLC on the link-level model and by the driver on the real heap.c (equal state counts); for every transition TLC checks that get/pop return a held element with maximal priority, pop removes exactly it, NULL on empty, size, and on the logged links: completeness (level-order slots = 1..size), parent >= child, parent links; cstl_fls is checked against its contract on 2^i-1, 2^i, 2^i+1 for all 64 bit positions; random interleavings on 64-300 elements with <=6 distinct priorities.",
                 note=TB),
 }
 NOT_APPLICABLE = {}
